@@ -980,4 +980,96 @@ fn propagate_flags(buffer: &mut hb_buffer_t) {
 #[allow(unused_imports, dead_code, missing_docs)]
 pub mod verif_hooks {
     use super::*;
+    use alloc::vec;
+    use alloc::vec::Vec;
+
+    /// One buffer item for the step hooks: (glyph_id/code point, cluster, unicode_props, glyph_props).
+    pub type Item = (u32, u32, u16, u16);
+
+    fn make_buffer(items: &[Item], level: u32, flags: u32, dir: Direction) -> hb_buffer_t {
+        let mut b = hb_buffer_t::new();
+        b.cluster_level = level;
+        b.flags = BufferFlags::from_bits_retain(flags);
+        b.direction = dir;
+        for it in items {
+            b.info.push(hb_glyph_info_t {
+                glyph_id: it.0,
+                cluster: it.1,
+                ..hb_glyph_info_t::default()
+            });
+            b.pos.push(GlyphPosition::default());
+        }
+        b.len = items.len();
+        for (info, it) in b.info.iter_mut().zip(items) {
+            info.set_unicode_props(it.2);
+            info.set_glyph_props(it.3);
+        }
+        b
+    }
+
+    /// `init_unicode_props` of one code point: (unicode_props, scratch flags it raised).
+    pub fn init_props(c: u32) -> Option<(u16, u32)> {
+        char::try_from(c).ok()?;
+        let mut info = hb_glyph_info_t {
+            glyph_id: c,
+            ..hb_glyph_info_t::default()
+        };
+        let mut flags = 0;
+        info.init_unicode_props(&mut flags);
+        Some((info.unicode_props(), flags))
+    }
+
+    /// `set_unicode_props` over a whole text: (unicode_props per item, scratch flags).
+    pub fn unicode_props_of_text(text: &[u32]) -> Option<(Vec<u16>, u32)> {
+        for c in text {
+            char::try_from(*c).ok()?;
+        }
+        let items: Vec<Item> = text.iter().map(|c| (*c, 0, 0, 0)).collect();
+        let mut b = make_buffer(&items, 0, 0, Direction::LeftToRight);
+        set_unicode_props(&mut b);
+        Some((
+            b.info[..b.len].iter().map(|i| i.unicode_props()).collect(),
+            b.scratch_flags,
+        ))
+    }
+
+    /// Horizontal direction of a script as `ensure_native_direction` sees it: 4 LTR, 5 RTL, 0 none.
+    pub fn script_horizontal_direction(script: Script) -> u8 {
+        match Direction::from_script(script) {
+            Some(Direction::LeftToRight) => 4,
+            Some(Direction::RightToLeft) => 5,
+            _ => 0,
+        }
+    }
+
+    /// `form_clusters` on items whose unicode_props are given (scratch NON_ASCII forced on).
+    pub fn form_clusters_of(items: &[Item], level: u32) -> Vec<u32> {
+        let mut b = make_buffer(items, level, 0, Direction::LeftToRight);
+        b.scratch_flags |= HB_BUFFER_SCRATCH_FLAG_HAS_NON_ASCII;
+        form_clusters(&mut b);
+        b.info[..b.len].iter().map(|i| i.cluster).collect()
+    }
+
+    /// `_hb_ot_layout_reverse_graphemes` (the reversal of `ensure_native_direction`): (glyph_id, cluster).
+    pub fn reverse_graphemes_of(items: &[Item], level: u32) -> Vec<(u32, u32)> {
+        let mut b = make_buffer(items, level, 0, Direction::LeftToRight);
+        _hb_ot_layout_reverse_graphemes(&mut b);
+        b.info[..b.len].iter().map(|i| (i.glyph_id, i.cluster)).collect()
+    }
+
+    /// `buffer.delete_glyphs_inplace(_hb_glyph_info_is_default_ignorable)` with x_advance = index
+    /// as a tag on the positions: (glyph_id, cluster, x_advance tag).
+    pub fn delete_default_ignorables_of(items: &[Item], level: u32) -> Vec<(u32, u32, i32)> {
+        let mut b = make_buffer(items, level, 0, Direction::LeftToRight);
+        b.have_positions = true;
+        for (i, p) in b.pos.iter_mut().enumerate() {
+            p.x_advance = i as i32;
+        }
+        b.delete_glyphs_inplace(_hb_glyph_info_is_default_ignorable);
+        b.info[..b.len]
+            .iter()
+            .zip(&b.pos[..b.len])
+            .map(|(i, p)| (i.glyph_id, i.cluster, p.x_advance))
+            .collect()
+    }
 }
